@@ -257,6 +257,20 @@ def p_np(_=None):
     return prog
 
 
+def p_smallfld(_=None):
+    """a field with no more elements than parties (q = largest prime <= m): lifted to an extension field when t > 0, so that
+    the evaluation points 1..m stay distinct and non-zero"""
+    async def prog(mpc):
+        m = len(mpc.parties)
+        q = max(p for p in (2, 3, 5, 7, 11, 13) if p <= max(m, 2))
+        S = mpc.SecFld(q)
+        x = mpc.input(S((mpc.pid + 1) % q))
+        y = x[0] * x[-1] + x[0]
+        z = mpc.prod(x)
+        return int(await mpc.output(y)), int(await mpc.output(z)), [int(v) for v in await mpc.output(x)]
+    return prog
+
+
 def p_tswitch(_=None):
     """the program lowers the threshold for its final, public phase (demos/parallelsort.py runs with threshold 0) while
     an opening is still pending: at every party the pending operation has to finish with the threshold it started with
@@ -295,4 +309,5 @@ PROGRAMS = {
     'secgrp': (p_secgrp, {'grp'}),
     'fault': (p_fault, {'int', 'fault'}),
     'tswitch': (p_tswitch, {'int', 'threshold'}),
+    'smallfld': (p_smallfld, {'fld', 'lifted'}),
 }
